@@ -832,11 +832,27 @@ func isBadgerMethod(info *types.Info, c *ast.CallExpr, recv, name string) bool {
 		return false
 	}
 	fn, ok := info.Uses[sel.Sel].(*types.Func)
-	if !ok || fn.Pkg() == nil || !strings.Contains(fn.Pkg().Path(), "dgraph-io/badger") {
+	if !ok || fn.Pkg() == nil {
 		return false
 	}
 	sig, _ := fn.Type().(*types.Signature)
 	if sig == nil || sig.Recv() == nil {
+		return false
+	}
+	if !strings.Contains(fn.Pkg().Path(), "dgraph-io/badger") {
+		// a narrow interface of the module that the Badger type satisfies (the manager holds "engine", say)
+		iface, isIface := sig.Recv().Type().Underlying().(*types.Interface)
+		if !isIface || !strings.HasPrefix(fn.Pkg().Path(), modPrefix) {
+			return false
+		}
+		for _, imp := range fn.Pkg().Imports() {
+			if !strings.Contains(imp.Path(), "dgraph-io/badger") {
+				continue
+			}
+			if tn, ok := imp.Scope().Lookup(recv).(*types.TypeName); ok && types.Implements(types.NewPointer(tn.Type()), iface) {
+				return true
+			}
+		}
 		return false
 	}
 	return strings.HasSuffix(sig.Recv().Type().String(), "."+recv)
